@@ -557,7 +557,7 @@ func (w *world) stateDump() string {
 		if s.gs != nil {
 			gsi = fmt.Sprintf("%d/%d", s.gs.Index, len(s.gs.Keys))
 		}
-		fmt.Fprintf(&sb, "%s our=%v sub=%v set=%v retry=%d gs=%s src=%s first=%d last=%d sigs=%v\n", h[:16], s.ourVAA != nil, s.submitted, s.settled,
+		fmt.Fprintf(&sb, "%.16s our=%v sub=%v set=%v retry=%d gs=%s src=%s first=%d last=%d sigs=%v\n", h, s.ourVAA != nil, s.submitted, s.settled,
 			s.retryCount, gsi, s.source, s.firstObserved.Sub(w.start), s.lastRetry.UnixNano(), sigs)
 	}
 	return sb.String()
